@@ -17,7 +17,10 @@ use crate::core::*;
 use crate::execs::*;
 
 /// (text, detached)
-pub const SNIPPETS: [(&str, bool); 43] = [
+pub const SNIPPETS: [(&str, bool); 45] = [
+    // errexit: the state carrier itself must survive it (its own pipelines may legitimately return non-zero)
+    ("set -e", false),
+    ("set +e", false),
     // an inherited variable set again after it was unset; export attribute removed; a read-only variable
     ("export HOME=/nowhere", false),
     ("export -n X", false),
@@ -69,20 +72,62 @@ pub const SNIPPETS: [(&str, bool); 43] = [
     ("Y=\"${Y:-}+\"; export Y", false),
 ];
 
-pub const PROBE: &str = r#"declare -p X Y Z arr m n IFS TMPFILE LANG_CODE code HOME OLDPWD R 2>/dev/null
-declare -f af
+pub const PROBE: &str = r#"declare -p X Y Z arr m n IFS TMPFILE LANG_CODE code HOME OLDPWD R 2>/dev/null || true
+declare -f af || true
 af 2>/dev/null || true
-declare -f f
-declare -f xg
+declare -f f || true
+declare -f xg || true
 xg a 2>/dev/null || true
-alias g 2>/dev/null
-set +o | grep -E ' (noclobber|nounset|noglob)$'
-shopt -p extglob nullglob
+alias g 2>/dev/null || true
+set +o | grep -E ' (noclobber|nounset|noglob|errexit)$'
+shopt -p extglob nullglob || true
 echo "PWD=$PWD"
 dirs -l -p
 g 2>/dev/null || true
 f 2>/dev/null || true
 echo "X=${X:-unset}""#;
+
+/// snippets that can return a non-zero status in some state: with errexit on they would end the single reference
+/// session, while scrut starts a new shell for the next test case - there is no single-session equivalent, so such
+/// histories are not part of the model
+const MAY_FAIL: [&str; 7] = ["unalias g 2>/dev/null", "cd - >/dev/null 2>&1", "pushd d >/dev/null 2>&1", "popd >/dev/null 2>&1", "readonly R=1", "mkdir -p d && cd d", "cd .."];
+
+/// the core alphabet of the deeper second phase of the thorough tier
+const CORE: [&str; 14] = [
+    "export X=v1",
+    "unset X",
+    "f(){ echo 1; }",
+    "alias g='echo hi'",
+    "set -o noclobber",
+    "set -e",
+    "shopt -s extglob\nxg() { case \"$1\" in @(a|b)) echo in;; *) echo out;; esac; }",
+    "shopt -u extglob",
+    "mkdir -p d && cd d",
+    "pushd d >/dev/null 2>&1",
+    "unset HOME",
+    "readonly R=1",
+    "say(){ echo \"$@\"; }; af(){ say fn; }",
+    "alias say='say al'",
+];
+
+fn errexit_on(history: &[usize]) -> bool {
+    let mut on = false;
+    for h in history {
+        if SNIPPETS[*h].1 {
+            continue;
+        }
+        match SNIPPETS[*h].0 {
+            "set -e" => on = true,
+            "set +e" => on = false,
+            _ => {}
+        }
+    }
+    on
+}
+
+fn in_model(history: &[usize], next: usize) -> bool {
+    !(errexit_on(history) && MAY_FAIL.contains(&SNIPPETS[next].0))
+}
 
 #[derive(Clone, Debug, Serialize, Deserialize, Hash)]
 pub struct StateCase {
@@ -103,6 +148,11 @@ struct Bfs {
     transitions: u64,
     done: bool,
     alphabet: Vec<usize>,
+    /// further (alphabet, max depth) searches to run from the empty history after this one
+    phases: Vec<(Vec<usize>, usize)>,
+    /// (states, depth completed) of the finished phases
+    finished: Vec<(usize, usize)>,
+    initial: String,
 }
 
 pub struct VcState {
@@ -185,14 +235,15 @@ impl Engine for VcState {
     }
 
     fn cases(&self, tier: Tier) -> Box<dyn Iterator<Item = StateCase> + Send + '_> {
-        let (max_depth, alphabet): (usize, Vec<usize>) = match tier {
-            Tier::Quick => (2, (0..SNIPPETS.len()).collect()),
-            Tier::Thorough => (4, (0..SNIPPETS.len()).collect()),
+        let core: Vec<usize> = CORE.iter().map(|c| SNIPPETS.iter().position(|s| s.0 == *c && !s.1).unwrap_or_else(|| machinery_failure(&format!("core snippet {c:?} not in the alphabet")))).collect();
+        let (max_depth, alphabet, phases): (usize, Vec<usize>, Vec<(Vec<usize>, usize)>) = match tier {
+            Tier::Quick => (2, (0..SNIPPETS.len()).collect(), vec![]),
+            Tier::Thorough => (3, (0..SNIPPETS.len()).collect(), vec![(core, 4)]),
         };
         let initial = reference_run(&[]).unwrap_or_else(|e| machinery_failure(&format!("reference bash does not run: {e}")));
         let mut states = HashMap::new();
-        states.insert(initial, vec![]);
-        *self.bfs.lock().unwrap() = Some(Bfs { states, queue: alphabet.iter().map(|a| vec![*a]).collect(), next_level: vec![], outstanding: 0, depth: 1, max_depth, transitions: 0, done: false, alphabet });
+        states.insert(initial.clone(), vec![]);
+        *self.bfs.lock().unwrap() = Some(Bfs { states, queue: alphabet.iter().map(|a| vec![*a]).collect(), next_level: vec![], outstanding: 0, depth: 1, max_depth, transitions: 0, done: false, alphabet, phases, finished: vec![], initial });
         Box::new(std::iter::from_fn(move || {
             let mut g = self.bfs.lock().unwrap();
             loop {
@@ -210,6 +261,19 @@ impl Engine for VcState {
                 }
                 // level complete: expand the newly discovered states
                 if b.depth >= b.max_depth || b.next_level.is_empty() {
+                    if !b.phases.is_empty() {
+                        // next search: from the empty history again, its own state table
+                        let (alphabet, max_depth) = b.phases.remove(0);
+                        b.finished.push((b.states.len(), b.depth));
+                        b.states = HashMap::new();
+                        b.states.insert(b.initial.clone(), vec![]);
+                        b.queue = alphabet.iter().map(|a| vec![*a]).collect();
+                        b.next_level = vec![];
+                        b.depth = 1;
+                        b.max_depth = max_depth;
+                        b.alphabet = alphabet;
+                        continue;
+                    }
                     b.done = true;
                     self.cv.notify_all();
                     return None;
@@ -218,6 +282,9 @@ impl Engine for VcState {
                 let fresh = std::mem::take(&mut b.next_level);
                 for h in fresh {
                     for a in &b.alphabet {
+                        if !in_model(&h, *a) {
+                            continue;
+                        }
                         let mut n = h.clone();
                         n.push(*a);
                         b.queue.push(n);
@@ -229,9 +296,10 @@ impl Engine for VcState {
 
     fn bound(&self, tier: Tier) -> String {
         format!(
-            "breadth-first search from the empty history over {} state-changing snippets (a function that needs extglob to be parsed, export/modify/unset variables, values with spaces/newlines/quotes/non-ASCII, indexed and associative arrays, integer attribute, functions, aliases, set -o noclobber/-u/-f, shopt, cd, pushd/popd, state-dependent updates, two detached snippets); states are merged on the reference probe output; every transition out of every state at depth < {} is executed",
+            "breadth-first search from the empty history over {} state-changing snippets (a function that needs extglob to be parsed, export/modify/unset variables - also inherited ones -, read-only, export -n, values with spaces/newlines/quotes/non-ASCII, indexed and associative arrays, integer attribute, functions, aliases, set -o noclobber/-u/-f/-e, shopt, cd, pushd/popd, state-dependent updates, two detached snippets); states are merged on the reference probe output; every transition out of every state at depth < {} is executed{}; with errexit on, snippets that can return non-zero are not taken (they would end the single reference session)",
             SNIPPETS.len(),
-            if tier == Tier::Quick { 2 } else { 4 }
+            if tier == Tier::Quick { 2 } else { 3 },
+            if tier == Tier::Quick { String::new() } else { format!("; second search over a core alphabet of {} snippets: every transition out of every state at depth < 4", CORE.len()) }
         )
     }
     fn rule(&self, _p: &str) -> String {
@@ -241,7 +309,7 @@ impl Engine for VcState {
         vec![
             "results hold for /bin/bash of this image (L4)".into(),
             "merging histories with equal probe output is sound for this oracle because the probe covers every object the alphabet can create; scrut's hidden state (the state file) is a function of the same objects unless a violation was already reported on the way".into(),
-            "read-only variables are excluded on purpose (documented); options that write to stderr (-x, -v) or end a shared session (-e) are excluded: the single-session reference is not what scrut promises there".into(),
+            "options that write to stderr (-x, -v) are excluded; errexit is in the alphabet, but histories in which a command fails while it is on are not (the single-session reference ends there, scrut starts a new shell: nothing to compare)".into(),
             "detached snippets have no file-system effects and are omitted on the reference side (they leave no state behind)".into(),
         ]
     }
@@ -249,7 +317,9 @@ impl Engine for VcState {
         let g = self.bfs.lock().unwrap();
         let b = g.as_ref().unwrap();
         let mut m = BTreeMap::new();
-        m.insert("states".into(), json!(b.states.len()));
+        m.insert("states".into(), json!(b.states.len() + b.finished.iter().map(|f| f.0).sum::<usize>()));
+        m.insert("states_per_search".into(), json!(b.finished.iter().map(|f| f.0).chain([b.states.len()]).collect::<Vec<_>>()));
+        m.insert("depth_completed_per_search".into(), json!(b.finished.iter().map(|f| f.1).chain([b.depth]).collect::<Vec<_>>()));
         m.insert("transitions".into(), json!(b.transitions));
         m.insert("traces_validated_against_impl".into(), json!(b.transitions));
         m.insert("depth_completed".into(), json!(b.depth));
